@@ -4,11 +4,16 @@ C09, const-evaluation side: `konst::iter::collect_const!` over ranges with fixed
 One small program per element type (13) is compiled against the konst rlib built from /repo's working tree
 and run; it prints `request<TAB>values` for `A..B`, `A..=B`, each plain, with the macro's `rev()` and with
 `into_iter!(..).rev()`.  One further program (no konst) prints what std's ranges yield for the same bounds.
+`A.., take(K)` with A up to 3 below the type's MAX (`rg.rftop.cc <ty> <a> <k>`): one `const` per case, each on its own
+source line; a const evaluation that panics is a compile error that rustc attributes to that line (`--error-format=json`,
+E0080 "evaluation panicked") = the result `panic`; the remaining cases are compiled again without the panicking ones and
+printed (`[v:..;..]`, with a final `end` when the array has fewer than K elements).  Oracle: `(A..).take(K)` under
+`catch_unwind` in the std-only program (same rustc flags: debug assertions and overflow checks on).
 A program that does not compile (const evaluation error) or whose const evaluation does not finish within
 the timeout (a broken iterator that never returns `None`) yields the result `compile-error` /
 `compile-timeout` for its rows, i.e. a disagreement with the oracle - not a broken check.
 """
-import os, subprocess, concurrent.futures
+import os, json, subprocess, concurrent.futures
 from vlib import core
 from vlib.progs import common
 
@@ -75,7 +80,7 @@ def konst_program(t, cases):
     return "".join(out)
 
 
-def oracle_program(all_cases):
+def oracle_program(all_cases, all_top=()):
     out = [PRELUDE, "fn main() {\n"]
     for t, cases in all_cases:
         out.append("    {\n        " + show_fn(t))
@@ -93,8 +98,135 @@ def oracle_program(all_cases):
         }}
 """)
         out.append("    }\n")
+    out.append(oracle_top(all_top))
     out.append("}\n")
     return "".join(out)
+
+
+# ---- `A.., take(K)` close to the type's MAX -------------------------------------------------------------------
+
+def type_max(t):
+    if t == "char":
+        return 0x10FFFF
+    bits = 64 if t in ("usize", "isize") else int(t[1:])
+    return 2 ** (bits - 1) - 1 if t.startswith("i") else 2 ** bits - 1
+
+
+def top_cases(t, thorough):
+    """(d, k): start = MAX - d, `take(k)`"""
+    cs = []
+    for d in range(0, 5 if thorough else 4):
+        ks = {0, d - 1, d, d + 1, d + 3} | ({d + 2, d + 6} if thorough else set())
+        cs += [(d, k) for k in sorted(ks) if k >= 0]
+    return cs
+
+
+def top_lit(t, d):
+    return "'\\u{%X}'" % (0x10FFFF - d) if t == "char" else f"<{t}>::MAX - {d}"
+
+
+def top_req(t, d, k):
+    return f"rg.rftop.cc {t} {type_max(t) - d} {k}"
+
+
+TOP_SHOW = """
+fn top(idx: usize, k: usize, v: Vec<String>) {
+    let mut v: Vec<String> = v.into_iter().map(|x| format!("v:{}", x)).collect();
+    if v.len() < k { v.push("end".to_string()); }
+    println!("TOP {}\\t{}", idx, fin(v));
+}
+"""
+
+
+def konst_top_program(t, cases):
+    """cases: [(idx, d, k)]; returns (source, {line number: idx})"""
+    head = PRELUDE + show_fn(t) + TOP_SHOW + "fn main() {\n"
+    lines = head.split("\n")
+    line_of = {}
+    body = []
+    n = len(lines)  # the next line appended gets this 1-based number
+    for idx, d, k in cases:
+        body.append(f"    {{ const R: &[{t}] = &konst::iter::collect_const!({t} => {top_lit(t, d)}.., take({k})); "
+                    f"top({idx}, {k}, R.iter().map(|x| show(*x)).collect()); }}")
+        line_of[n] = idx
+        n += 1
+    return head + "\n".join(body) + "\n}\n", line_of
+
+
+def oracle_top(all_top):
+    out = []
+    for t, cases in all_top:
+        out.append("    {\n        " + show_fn(t))
+        for d, k in cases:
+            out.append(f"""        {{
+            let r = std::panic::catch_unwind(|| {{
+                let mut v: Vec<String> = ({top_lit(t, d)}..).take({k}).map(|x| format!("v:{{}}", show(x))).collect();
+                if v.len() < {k} {{ v.push("end".to_string()); }}
+                fin(v)
+            }});
+            println!("{top_req(t, d, k)}\\t{{}}", r.unwrap_or("panic".to_string()));
+        }}
+""")
+        out.append("    }\n")
+    return "".join(out)
+
+
+def _panicked_lines(stderr, src):
+    """source lines of `src` that a const-evaluation panic (E0080 "evaluation panicked") is attributed to"""
+    def walk(o, acc):
+        if isinstance(o, dict):
+            if o.get("file_name") == src and "line_start" in o:
+                acc.add(o["line_start"])
+            for v in o.values():
+                walk(v, acc)
+        elif isinstance(o, list):
+            for v in o:
+                walk(v, acc)
+    hit = set()
+    for line in stderr.splitlines():
+        try:
+            d = json.loads(line)
+        except ValueError:
+            continue
+        if d.get("level") == "error" and (d.get("code") or {}).get("code") == "E0080" and "panicked" in d.get("message", ""):
+            walk(d, hit)
+    return hit
+
+
+def top_results(d, t, tag, cases, timeout):
+    """cases: [(idx, d, k)] -> {idx: result}; at most 3 compilations (each drops the consts that panicked)"""
+    res = {}
+    remaining = list(cases)
+    for attempt in range(3):
+        if not remaining:
+            break
+        src, binp = os.path.join(d, f"top_{t}_{tag}{attempt}.rs"), os.path.join(d, f"top_{t}_{tag}{attempt}")
+        text, line_of = konst_top_program(t, remaining)
+        open(src, "w").write(text)
+        try:
+            rc, err = common.compile_one(src, binp, extra=("--error-format=json",), timeout=timeout)
+        except subprocess.TimeoutExpired:
+            for idx, _, _ in remaining:
+                res[idx] = "compile-timeout"
+            return res
+        if rc == 0:
+            rc2, so, se = common.run_bin(binp, timeout=60)
+            for line in so.splitlines():
+                if line.startswith("TOP ") and "\t" in line:
+                    k, val = line[4:].split("\t", 1)
+                    res[int(k)] = val
+            for idx, _, _ in remaining:
+                res.setdefault(idx, "run-failed")
+            return res
+        hit = {line_of[l] for l in _panicked_lines(err, src) if l in line_of}
+        if not hit:
+            break
+        for idx in hit:
+            res[idx] = "panic"
+        remaining = [c for c in remaining if c[0] not in hit]
+    for idx, _, _ in remaining:
+        res.setdefault(idx, "compile-error")
+    return res
 
 
 def _compile(src, out, timeout):
@@ -121,7 +253,8 @@ def generate(ctx):
     common.konst_rlib()
     # oracle (std only)
     osrc, obin = os.path.join(d, "oracle.rs"), os.path.join(d, "oracle")
-    open(osrc, "w").write(oracle_program(all_cases))
+    all_top = [(t, top_cases(t, thorough)) for t in INTS + ["char"]]
+    open(osrc, "w").write(oracle_program(all_cases, all_top))
     st, err = _compile(osrc, obin, 300)
     if st != "ok":
         raise RuntimeError("oracle program does not compile: " + err[-1500:])
@@ -136,8 +269,27 @@ def generate(ctx):
         open(src, "w").write(konst_program(t, cases))
         jobs.append((t, src, binp))
     timeout = 60 if thorough else 30
-    with concurrent.futures.ThreadPoolExecutor(max_workers=13) as ex:
+    # `A.., take(K)`: per type one program with the cases predicted to panic at MAX (k >= d: the emitted loop pulls
+    # k+1 items) and one with the others; the prediction only balances the work, the results come from rustc
+    top_jobs = []
+    for t, cases in all_top:
+        idx = [(i, dd, k) for i, (dd, k) in enumerate(cases)]
+        top_jobs.append((t, "p", [c for c in idx if c[2] >= c[1]]))
+        top_jobs.append((t, "v", [c for c in idx if c[2] < c[1]]))
+    with concurrent.futures.ThreadPoolExecutor(max_workers=16) as ex:
+        top_f = [ex.submit(top_results, d, t, tag, cs, timeout) for t, tag, cs in top_jobs]
         res = list(ex.map(lambda j: _compile(j[1], j[2], timeout), jobs))
+        top_res = {}
+        for (t, tag, cs), f in zip(top_jobs, top_f):
+            for i, val in f.result().items():
+                top_res[(t, i)] = val
+    top_impl = {}
+    top_scope = {}
+    for t, cases in all_top:
+        for i, (dd, k) in enumerate(cases):
+            top_impl[top_req(t, dd, k)] = top_res.get((t, i), "missing")
+            # `take(k)` pulls k+1 items: k == d is the existing konst-vs-std observation (notes/C09.md)
+            top_scope[top_req(t, dd, k)] = k != dd
     impl = {}
     status = {}
     for (t, src, binp), (st, err) in zip(jobs, res):
@@ -152,6 +304,9 @@ def generate(ctx):
     rows = []
     for req, ora in oracle:
         t = req.split(" ")[1]
+        if req in top_impl:
+            rows.append((req, top_impl[req], ora, top_scope[req]))
+            continue
         imp = impl.get(req, status[t] if status[t] != "ok" else "missing")
         rows.append((req, imp, ora, True))
     return common.write_tsv(os.path.join(core.BUILD, f"t_{ctx['pid']}_c09cc.tsv"), rows)
